@@ -21,13 +21,38 @@ Fixpoint chain_width (ch : dtype_chain) (bits : Z) : option Z :=
 
 (* ---------------------------------------------------------------- simple ADC *)
 
-(* output = (clip(signal, vmin, vmax) - vmin) * (2**bits - 1) / (vmax - vmin), all in binary64 *)
+(* voltage = asarray(signal, dtype=float): a float32/float16 frame is converted exactly to binary64, so
+   the model takes the voltages as binary64 numbers whatever the precision of the frame.
+   output = (clip(voltage, vmin, vmax) - vmin) * max_code / (vmax - vmin), all in binary64 *)
 Definition simple_scaled (bits : Z) (vmin vmax x : b64) : b64 :=
   bdiv (bmul (bsub (bclip x vmin vmax) vmin) (bofZ (2 ^ bits - 1))) (bsub vmax vmin).
 
-(* np.trunc(...).astype(dtype): None = the C cast is undefined for this value *)
+(* max_code = 2**bit_resolution - 1 (a Python integer, exact) *)
+Definition max_code (bits : Z) : Z := 2 ^ bits - 1.
+
+(* top = float(max_code); if top > max_code: top = nextafter(top, 0.0)
+   -- the largest double that does not exceed full scale (Python compares a float with an int exactly;
+   float(int) is correctly rounded, so top is an integer-valued double) *)
+Definition top_float (bits : Z) : b64 :=
+  let t := bofZ (max_code bits) in
+  match btruncZ t with
+  | Some z => if max_code bits <? z then bpred t else t
+  | None => t
+  end.
+
+(* np.minimum(np.trunc(output), top) *)
+Definition simple_clamped (bits : Z) (vmin vmax x : b64) : b64 :=
+  bminimum (btrunc (simple_scaled bits vmin vmax x)) (top_float bits).
+
+(* np.asarray(max_code, dtype=np.uint64).astype(dtype): an integer -> integer cast, which wraps modulo
+   2^w (defined); the theorems show that for the width get_dtype chooses nothing wraps *)
+Definition full_scale_as (w bits : Z) : Z := max_code bits mod 2 ^ w.
+
+(* digitized = minimum(trunc(output), top).astype(dtype); digitized[voltage >= voltage_max] = full scale.
+   None = the float -> unsigned C cast is undefined for this value (NaN, or a value that does not fit) *)
 Definition simple_code (w bits : Z) (vmin vmax x : b64) : option Z :=
-  cast_unsigned w (btruncZ (simple_scaled bits vmin vmax x)).
+  if bge x vmax then Some (full_scale_as w bits)
+  else cast_unsigned w (btruncZ (simple_clamped bits vmin vmax x)).
 
 Definition simple_frame (ch : dtype_chain) (bits : Z) (vmin vmax : b64) (xs : list b64)
   : option (Z * list (option Z)) :=
@@ -39,7 +64,8 @@ Definition simple_frame (ch : dtype_chain) (bits : Z) (vmin vmax : b64) (xs : li
 (* ---------------------------------------------------------------- SAR ADC *)
 
 (* The code is accumulated in the unsigned integer output type with Python integer bit weights
-   (exact), the remainder and the reference voltage are binary64. *)
+   (exact), the remainder (a binary64 copy of the signal, whatever the precision of the frame) and the
+   reference voltage are binary64. *)
 Record sar_state := { acc : Z; rem : b64; ref : b64 }.
 
 Definition digital_value (bits i : Z) : Z := 2 ^ (bits - (i + 1)).
@@ -108,6 +134,16 @@ Fixpoint sortedZ (l : list Z) : bool :=
   | _ => true
   end.
 
+(* the frames the specification speaks about: voltages given in non-decreasing order, no NaN *)
+Fixpoint sortedB (l : list b64) : bool :=
+  match l with
+  | a :: ((b :: _) as t) => ble a b && sortedB t
+  | _ => true
+  end.
+
+Definition no_nan (l : list b64) : bool := forallb (fun x => negb (bis_nan x)) l.
+Definition all_finite (l : list b64) : bool := forallb (fun x => is_finite x) l.
+
 Definition in_code_range (bits c : Z) : bool := (0 <=? c) && (c <=? 2 ^ bits - 1).
 
 (* one voltage / code pair of the simple converter *)
@@ -157,10 +193,11 @@ Inductive adc_kind := Simple | Sar | Sar0.
 Record adc_case := {
   kind : adc_kind; bits : Z; vmin : b64; vmax : b64; xs : list b64;   (* xs sorted ascending *)
   observed : option (Z * list Z);
-  twin : option (list Z);  (* Sar0 only: what the noise-free converter returned on the same frame *)
-  exact : bool             (* true: float64 signal frame, the binary64 model applies and is compared;
-                              false: float32/float16 frame, the output is only judged against the spec *)
+  twin : option (list Z)   (* Sar0 only: what the noise-free converter returned on the same frame *)
 }.
+(* All three converters work on a binary64 copy of the signal frame (np.asarray / np.array with
+   dtype=float), so a float32 / float16 frame is handed to the model as the binary64 numbers it converts
+   to exactly: the model applies to every frame precision and is always compared. *)
 
 Fixpoint listZ_eqb (a b : list Z) : bool :=
   match a, b with
@@ -177,7 +214,7 @@ Definition model_of (ch : dtype_chain) (c : adc_case) : option (Z * list (option
   end.
 
 Definition case_mismatch (ch : dtype_chain) (c : adc_case) : bool :=
-  if exact c then negb (frame_agree (model_of ch c) (observed c)) else false.
+  negb (frame_agree (model_of ch c) (observed c)).
 
 (* the allowed settings: 4 <= bits <= 64 and vmin < vmax; on them the implementation must not raise *)
 Definition case_violates (c : adc_case) : bool :=
